@@ -164,6 +164,13 @@ func (model *ProtDistModel) opt_Dist_F(dist float64, F *mat.Dense) float64 {
 		dist = BL_MIN
 	}
 
+	// The first step of Brent goes towards BL_MAX, where the likelihood is flat:
+	// if that plateau is more likely than the initial distance, the search never
+	// comes back. Start from a distance at least as likely as the plateau.
+	for lkmax := model.lk_Dist(F, BL_MAX); dist < BL_MAX/2. && model.lk_Dist(F, dist) < lkmax; {
+		dist *= 2.
+	}
+
 	ax = BL_MIN
 	bx = dist
 	cx = BL_MAX
